@@ -2,11 +2,58 @@
     collectFieldsImpl appends an error for each of them ([collect_errs]); when every condition of
     the document has a boolean value there is none, and collectFields leaves the state alone. *)
 From Coq Require Import List NArith ZArith Bool.
-From ApiFu Require Import Base.Sexp ExeA.ArgData ExeA.ArgArgs ExeA.ArgModel ExeA.ArgSpec ExeA.ArgHyps ExeA.ArgCollectProofs.
+From ApiFu Require Import Base.Sexp ExeA.ArgData ExeA.ArgArgs ExeA.ArgModel ExeA.ArgSpec ExeA.ArgHyps ExeA.ArgBaseProofs ExeA.ArgCollectProofs.
 Import ListNotations.
 
 Lemma add_errs_nil st : add_errs [] st = st.
 Proof. destruct st as [e c]. unfold add_errs. cbn. rewrite app_nil_r. reflexivity. Qed.
+
+(** ** reporting the directive errors of one traversal *)
+Lemma report_errs_nil once st : report_errs once [] st = st.
+Proof. reflexivity. Qed.
+
+Lemma report_errs_cons once e es st :
+  report_errs once (e :: es) st =
+  report_errs once es (if once && existsb (gerror_eqb e) (st_errs st) then st else add_err e st).
+Proof. reflexivity. Qed.
+
+Lemma report_cache once es : forall st, st_cache (report_errs once es st) = st_cache st.
+Proof.
+  induction es as [|e es IH]; intro st; [reflexivity|]. rewrite report_errs_cons, IH.
+  destruct (once && existsb (gerror_eqb e) (st_errs st)); reflexivity.
+Qed.
+
+(** only the error list matters *)
+Lemma report_errs_same once es : forall st1 st2,
+  st_errs st1 = st_errs st2 -> st_errs (report_errs once es st1) = st_errs (report_errs once es st2).
+Proof.
+  induction es as [|e es IH]; intros st1 st2 H; [exact H|]. rewrite !report_errs_cons. apply IH.
+  rewrite H. destruct (once && existsb (gerror_eqb e) (st_errs st2)); [exact H|]. cbn [add_err st_errs]. rewrite H. reflexivity.
+Qed.
+
+Lemma report_mono once es : forall st, incl (st_errs st) (st_errs (report_errs once es st)).
+Proof.
+  induction es as [|e es IH]; intro st; [apply incl_refl|]. rewrite report_errs_cons.
+  eapply incl_tran; [|apply IH].
+  destruct (once && existsb (gerror_eqb e) (st_errs st)); [apply incl_refl|]. cbn [add_err st_errs]. apply incl_appl, incl_refl.
+Qed.
+
+Lemma report_incl es : forall st, incl es (st_errs (report_errs true es st)).
+Proof.
+  induction es as [|e es IH]; intro st; [intros x []|]. rewrite report_errs_cons. intros x [<-|Hx]; [|exact (IH _ x Hx)].
+  apply (report_mono true es). cbn [andb].
+  destruct (existsb (gerror_eqb e) (st_errs st)) eqn:Ex.
+  - apply existsb_exists in Ex as [y [Hy Hey]]. apply gerror_eqb_eq in Hey. subst y. exact Hy.
+  - cbn [add_err st_errs]. apply in_or_app. right. left. reflexivity.
+Qed.
+
+Lemma report_all_in es : forall st, incl es (st_errs st) -> report_errs true es st = st.
+Proof.
+  induction es as [|e es IH]; intros st H; [reflexivity|]. rewrite report_errs_cons. cbn [andb].
+  assert (Ex : existsb (gerror_eqb e) (st_errs st) = true).
+  { apply existsb_exists. exists e. split; [apply H; left; reflexivity|apply gerror_eqb_eq; reflexivity]. }
+  rewrite Ex. apply IH. intros x Hx. apply H. right. exact Hx.
+Qed.
 
 Section DirErrs.
   Variables (S : schema) (D : document) (E : env).
